@@ -182,9 +182,10 @@ func TestGenC19(t *testing.T) {
 	}
 	ser(&gbn.PacketFIN{})
 	ser(&gbn.PacketSYNACK{})
-	plens := []int{0, 1, 2, 3, 4, 5, 255, 256, 257, 1000}
+	// 65551 = a maximal Noise record body (65535 + 16-byte MAC), which the mailbox sends as one MsgData
+	plens := []int{0, 1, 2, 3, 4, 5, 255, 256, 257, 1000, 65535, 65536, 65551}
 	if thorough() {
-		plens = append(plens, 65535, 65536, 70000)
+		plens = append(plens, 70000, 131072, 200000)
 	}
 	for _, l := range plens {
 		ser(&gbn.PacketData{Seq: uint8(l), FinalChunk: true, Payload: r.bytes(l)})
